@@ -1438,7 +1438,7 @@ def run(rep, tier, seed):
 
 def replay(rep, path):
     """Re-run one recorded case (a run sequence or a two-thread schedule) on fresh scratch trees and
-    say whether the violation shows again.  (Like every replay of this kit it rewrites evidence/C16.json.)"""
+    say whether the violation shows again (exit 1 if it does)."""
     from verifkit.util import scratch
     doc = json.load(open(path))
     case = doc["case"]
@@ -1480,7 +1480,7 @@ def replay(rep, path):
     rep.nontrivial("case")
     if reproduced:
         print("REPRODUCED:", "; ".join(reproduced))
-        rep.violation(doc.get("key"), "replayed: " + "; ".join(reproduced), case)
+        rep.violation(doc.get("key"), doc.get("what") or "replayed: " + "; ".join(reproduced), case)
     else:
         print("NOT REPRODUCED")
 
